@@ -19,7 +19,7 @@ theorem caps_ackAdvance {cfg : Cfg} {t : Tcb} (ack : Nat) (h : TcbCaps cfg t) : 
   simp only [TcbCaps, List.length_drop] at *
   omega
 
-theorem caps_onAck {cfg : Cfg} {t : Tcb} (s : Seg) (h : TcbCaps cfg t) : TcbCaps cfg (t.onAck s) := by
+theorem caps_onAck {cfg : Cfg} {t : Tcb} (fm : Bool) (s : Seg) (h : TcbCaps cfg t) : TcbCaps cfg (t.onAck fm s) := by
   unfold onAck
   split
   · split
@@ -50,7 +50,7 @@ theorem caps_onFin {cfg : Cfg} {t : Tcb} (s : Seg) (h : TcbCaps cfg t) : TcbCaps
 theorem caps_handleEstablished {cfg : Cfg} {t : Tcb} (s : Seg) (h : TcbCaps cfg t) :
     TcbCaps cfg (t.handleEstablished cfg s).1 := by
   unfold handleEstablished
-  exact caps_onFin s (caps_onData s (caps_onAck s h))
+  exact caps_onFin s (caps_onData s (caps_onAck cfg.fixSndMax s h))
 
 theorem segStep_bufs {t t' : Tcb} {mss cap port : Nat} {sg : Seg}
     (hs : t.segStep mss cap port = some (t', sg)) :
